@@ -66,7 +66,9 @@ def shapes(tier):
             for k2 in kinds4:
                 for k3 in ("once", "periodic"):
                     for st in steppers(2, dls=("abs",)):
-                        J.append(job([S(k1, 1), S(k2, 2, dl="rel", origin=1), S(k3, 3, origin=0)] + st, max_steps=4))
+                        if sum(1 for c in st if c["op"] == "until") > 1:
+                            continue   # three actions under two step_until: minutes per shape
+                        J.append(job([S(k1, 1), S(k2, 2, dl="rel", origin=1), S(k3, 3, origin=0)] + st, max_steps=3))
         for st in steppers(3, dls=("abs", "rel")):
             J.append(job([S("periodic", 1), S("once", 2, dl="rel")] + st, max_steps=4))
     return dedup(J)
